@@ -1,0 +1,12 @@
+//go:build verif
+
+package base
+
+// Contracts checked by /verif (vcgo). Comment-only: no executable code.
+// C09: state invariant of the refactoring scan between two callbacks.
+
+//@ invariant models.fields != nil
+
+//@ func NewJavaRefactorListener
+//@ establishes
+//@ modifies *
